@@ -1,3 +1,4 @@
+import Mrpro.Lemmas.SrcL
 import Mrpro.Model.Rotation
 import Mrpro.Lemmas.RotationL
 import Mrpro.Lemmas.EulerL
@@ -37,5 +38,20 @@ theorem conj_toMat (q : Q K) : q.conj.toMat = q.toMat.transpose := M.conj_toMat 
 
 /-- non-vacuity of `s² + c² = 1` over ℚ: the 3-4-5 angle -/
 example : ((3 : ℚ) / 5) * (3 / 5) + (4 / 5) * (4 / 5) = 1 := by norm_num
+
+/-! ### Tie to the source: integer code translated from `/repo` on this run -/
+
+/-- `_quaternion_to_euler`: for every axis triple an Euler sequence can produce, the third axis
+computed by the source completes {0,1,2} and `sign` is the parity of the axis permutation -/
+theorem src_euler_axes (q r s : Int) (hq : 0 ≤ q ∧ q ≤ 2) (hr : 0 ≤ r ∧ r ≤ 2) (hs : 0 ≤ s ∧ s ≤ 2)
+    (hqr : q ≠ r) (hrs : r ≠ s) :
+    let p := M.Src.euler_axes q r s
+    0 ≤ p.1 ∧ p.1 ≤ 2 ∧ p.1 ≠ q ∧ p.1 ≠ r ∧ p.2 = M.leviCivita q r p.1 :=
+  M.SrcL.euler_axes_spec q r s hq hr hs hqr hrs
+
+/-- … and equals the formulas used by the model -/
+theorem src_euler_axes_eq (q r s : Int) :
+    M.Src.euler_axes q r s = (M.eulerThird q r s, M.eulerSign q r (M.eulerThird q r s)) :=
+  M.SrcL.euler_axes_eq q r s
 
 end C12
